@@ -159,24 +159,58 @@ def lean_stmts(name, stmts):
     return "\n".join(lines)
 
 
+def _previous_values():
+    """values of the last successfully generated file (used when a section cannot be translated)"""
+    vals = {}
+    if os.path.exists(OUT):
+        txt = open(OUT).read()
+        for m in re.finditer(r"^def (\w+) : (?:Nat|Int) := (-?\d+)", txt, re.M):
+            vals[m.group(1)] = int(m.group(2))
+    return vals
+
+
 def generate():
-    tap = module_constants(os.path.join(SRC, "server_tap.py"),
-                           ["CHANNEL_EXPIRATION_TIME", "EXPIRATION_CHECK_PERIOD"])
-    dbc = module_constants(os.path.join(SRC, "database.py"),
-                           ["CHANNELDB_TARGET_VERSION", "USAGEDB_TARGET_VERSION"])
-    alloc = alloc_constants(os.path.join(SRC, "server.py"))
-    exp_t = tap["CHANNEL_EXPIRATION_TIME"] * TICKS
-    per_t = tap["EXPIRATION_CHECK_PERIOD"] * TICKS
-    if exp_t != int(exp_t) or per_t != int(per_t):
-        raise TranslateError("expiration constants are not multiples of 1/%d s" % TICKS)
+    """-> (text, info).  info["errors"] maps a section (tap / alloc / db / scripts) to the reason it
+    could not be translated; for such a section the previous values are kept, so that the model
+    still builds and the search for a failing input can run against it."""
+    errors = {}
+    prev = _previous_values()
+    try:
+        tap = module_constants(os.path.join(SRC, "server_tap.py"),
+                               ["CHANNEL_EXPIRATION_TIME", "EXPIRATION_CHECK_PERIOD"])
+        exp_t = tap["CHANNEL_EXPIRATION_TIME"] * TICKS
+        per_t = tap["EXPIRATION_CHECK_PERIOD"] * TICKS
+        if exp_t != int(exp_t) or per_t != int(per_t):
+            raise TranslateError("expiration constants are not multiples of 1/%d s" % TICKS)
+    except (TranslateError, OSError, SyntaxError) as e:
+        errors["tap"] = str(e)
+        exp_t, per_t = prev.get("expirationTicks", 5280), prev.get("periodTicks", 2400)
+    try:
+        dbc = module_constants(os.path.join(SRC, "database.py"),
+                               ["CHANNELDB_TARGET_VERSION", "USAGEDB_TARGET_VERSION"])
+    except (TranslateError, OSError, SyntaxError) as e:
+        errors["db"] = str(e)
+        dbc = {"CHANNELDB_TARGET_VERSION": prev.get("channelTarget", 1), "USAGEDB_TARGET_VERSION": prev.get("usageTarget", 2)}
+    try:
+        alloc = alloc_constants(os.path.join(SRC, "server.py"))
+    except (TranslateError, OSError, SyntaxError) as e:
+        errors["alloc"] = str(e)
+        alloc = {"sizeLo": prev.get("allocSizeLo", 1), "sizeHi": prev.get("allocSizeHi", 4), "tries": prev.get("allocTries", 1000),
+                 "lo": prev.get("allocLo", 1000), "hi": prev.get("allocHi", 1000000)}
     sch = os.path.join(SRC, "db-schemas")
     scripts = {}
-    for fn in sorted(os.listdir(sch)):
-        if fn.endswith(".sql"):
-            scripts[fn] = sql_statements(os.path.join(sch, fn))
+    try:
+        for fn in sorted(os.listdir(sch)):
+            if fn.endswith(".sql"):
+                scripts[fn] = sql_statements(os.path.join(sch, fn))
+    except (TranslateError, OSError) as e:
+        errors["scripts"] = str(e)
     info = {"expirationTicks": int(exp_t), "periodTicks": int(per_t), "alloc": alloc,
             "channelTarget": dbc["CHANNELDB_TARGET_VERSION"], "usageTarget": dbc["USAGEDB_TARGET_VERSION"],
-            "scripts": {k: v for k, v in scripts.items()}}
+            "scripts": {k: v for k, v in scripts.items()}, "errors": errors}
+    if "scripts" in errors:
+        # keep the whole previous file: the SQL sections cannot be regenerated piecemeal
+        return (open(OUT).read() if os.path.exists(OUT) else ""), info
     L = []
     L.append("/- GENERATED by harness/translate.py from the sources under /repo -- do not edit.")
     L.append("   Regenerated on every check run; the model and the theorems use these values. -/")
